@@ -599,4 +599,86 @@ theorem closestPoints_ok {supp1 supp2 : V2 K → V2 K} (hs : ∀ d, GV (csoFromS
       obtain ⟨f3, hf3⟩ := new_isSome (vs := vs) i2 i0
       exact absurd (Array.getElem?_eq_getElem i2) (hno f1 f2 f3 _ _ _ hf1 hf2 hf3 (Array.getElem?_eq_getElem i0) (Array.getElem?_eq_getElem i1))
 
+
+/-! ## the expansion replaces the edge `a → b` by `a → s → b` (2-D silhouette: two edges) -/
+
+theorem new_pts {vs : Array (CSOPoint2 K)} {p0 p1 : Nat} {f : Face2 K} {ins : Bool}
+    (h : Face2.new vs p0 p1 = some (f, ins)) : f.pts0 = p0 ∧ f.pts1 = p1 := by
+  unfold Face2.new at h
+  split at h
+  · split at h
+    · rw [Option.map_eq_some_iff] at h
+      obtain ⟨g, hg, he⟩ := h
+      cases he
+      obtain ⟨_, _, _, h4, h5, _⟩ := newWithProj_ok hg
+      exact ⟨h4, h5⟩
+    · rw [Option.map_eq_some_iff] at h
+      obtain ⟨g, hg, he⟩ := h
+      cases he
+      obtain ⟨_, _, _, h4, h5, _⟩ := newWithProj_ok hg
+      exact ⟨h4, h5⟩
+  · cases h
+
+theorem addFace_faces {vs : Array (CSOPoint2 K)} {curr : K} {faces faces' : Array (Face2 K)} {heap heap' : Array (FaceId2 K)}
+    {f : Face2 K × Bool} (h : epa2AddFace vs curr faces heap f = .inr (faces', heap')) : faces' = faces.push f.1 := by
+  unfold epa2AddFace at h
+  split at h
+  · simp only at h
+    split at h
+    · cases h
+    · split at h
+      · split at h
+        · cases h; rfl
+        · cases h
+      · cases h; rfl
+  · cases h; rfl
+
+/-- one loop iteration that continues either only drops a deleted face from the heap, or pushes the support point `s` of a
+queued face `[a, b]` and appends exactly the two faces `[a, s]` and `[s, b]` -/
+theorem step_splits_face {supp1 supp2 : V2 K → V2 K} {st st' : Epa2State K}
+    (h : epa2Step supp1 supp2 st = .inr st') :
+    (st'.vertices = st.vertices ∧ st'.faces = st.faces) ∨
+    ∃ (fid : FaceId2 K) (face g1 g2 : Face2 K), fid ∈ st.heap ∧ st.faces[fid.id]? = some face ∧
+      st'.vertices = st.vertices.push (csoFromShapes supp1 supp2 face.normal) ∧
+      st'.faces = (st.faces.push g1).push g2 ∧
+      g1.pts0 = face.pts0 ∧ g1.pts1 = st.vertices.size ∧ g2.pts0 = st.vertices.size ∧ g2.pts1 = face.pts1 := by
+  unfold epa2Step at h
+  split at h
+  · cases h
+  · rename_i fid heap hpop
+    obtain ⟨hfid, _⟩ := mem_of_heapPop hpop
+    split at h
+    · cases h
+    · rename_i face hface
+      split at h
+      · cases h; exact Or.inl ⟨rfl, rfl⟩
+      · simp only at h
+        generalize hB : (if (csoFromShapes supp1 supp2 face.normal).point.dot face.normal < st.maxDist
+            then fid else st.best) = best' at h
+        generalize hM : (if (csoFromShapes supp1 supp2 face.normal).point.dot face.normal < st.maxDist
+            then (csoFromShapes supp1 supp2 face.normal).point.dot face.normal else st.maxDist) = maxDist' at h
+        split at h
+        · split at h
+          · cases h
+          · split at h <;> cases h
+        · split at h
+          · rename_i f1 f2 hf1 hf2
+            have q1 := new_pts (f := f1.1) (ins := f1.2) hf1
+            have q2 := new_pts (f := f2.1) (ins := f2.2) hf2
+            split at h
+            · cases h
+            · rename_i faces1 heap1 hr1
+              have e1 := addFace_faces hr1
+              split at h
+              · cases h
+              · rename_i faces2 heap2 hr2
+                have e2 := addFace_faces hr2
+                split at h
+                · cases h
+                · cases h
+                  refine Or.inr ⟨fid, face, f1.1, f2.1, hfid, hface, rfl, ?_, q1.1, q1.2, q2.1, q2.2⟩
+                  show faces2 = _
+                  rw [e2, e1]
+          · cases h
+
 end C02
